@@ -52,6 +52,7 @@ class Trace:
         self.conds = []         # (lean-ish string, outcome)
         self.map_known = map_known_consts
         self.funs = set()       # opaque unary functions used (sqrt, ...)
+        self.literals = {}      # float literal -> symbol name (e.g. 0.166666666666667 -> sixth)
         self._n = 0
 
     def var(self, name, val):
@@ -70,6 +71,8 @@ class Trace:
             return Sym("const", (x,), float(x), self)
         if isinstance(x, (float, _np.floating)):
             x = float(x)
+            if x in self.literals:
+                return self.var(self.literals[x], x)
             if self.map_known:
                 b = _known_const(x)
                 if b is not None:
@@ -591,3 +594,38 @@ class GenFile:
                              % (name, k, name, args, name, args))
                 idx.append((name, k))
         return "\n".join(lines) + "\n", idx
+
+
+def substitute(e, mapping, tr2, default=None, _memo=None):
+    """Rebuild `e` in trace tr2 through the Sym operators (so constant folding
+    and 0/1 simplifications apply), replacing variables by `mapping[name]`
+    (a Sym of tr2 or a number); other variables are kept (renamed identically)
+    unless `default` is given, in which case they are replaced by `default`."""
+    memo = {} if _memo is None else _memo
+    k = id(e)
+    if k in memo:
+        return memo[k]
+    op, a = e.op, e.args
+    if op == "var":
+        if a[0] in mapping:
+            r = tr2.const(mapping[a[0]])
+        elif default is not None:
+            r = tr2.const(default)
+        else:
+            r = tr2.var(a[0], e.val)
+    elif op == "const":
+        r = Sym("const", a, e.val, tr2)
+    elif op == "neg":
+        r = -substitute(a[0], mapping, tr2, default, memo)
+    elif op == "npow":
+        r = substitute(a[0], mapping, tr2, default, memo) ** a[1]
+    elif op == "fun":
+        r = getattr(substitute(a[1], mapping, tr2, default, memo), a[0])()
+    elif op == "rpow":
+        r = substitute(a[0], mapping, tr2, default, memo) ** substitute(a[1], mapping, tr2, default, memo)
+    else:
+        x = substitute(a[0], mapping, tr2, default, memo)
+        y = substitute(a[1], mapping, tr2, default, memo)
+        r = {"add": lambda: x + y, "sub": lambda: x - y, "mul": lambda: x * y, "div": lambda: x / y}[op]()
+    memo[k] = r
+    return r
